@@ -804,6 +804,29 @@ def rule_transform_terms(repo: Repo) -> List[Ob]:
                     continue  # accumulator initialisation
                 tests = controlling_tests(c, node_for(c, site))
                 guarded = any(any(isinstance(y, ast.Name) and y.id in idn for y in ast.walk(t.ast)) for t, _ in tests)
+                mom = [x for x in ast.walk(v) if isinstance(x, ast.Call) and call_name(x) == "get_moment"]
+                if mom and guarded:
+                    # a raw moment standing in for the a-th derivative at 0:  cf^(a)(0) = I**a * E(X**a),  mgf^(a)(0) = E(X**a)
+                    order_ok = bool(mom[0].args) and isinstance(mom[0].args[0], ast.Name) and mom[0].args[0].id in idn
+                    units = [x for x in ast.walk(v) if isinstance(x, ast.BinOp) and isinstance(x.op, ast.Pow) and any(isinstance(y, ast.Name) and y.id == "I" for y in ast.walk(x.left))]
+                    if not order_ok:
+                        obs.append(Ob("M-transform-term", key, FA, v.lineno, qn, False, f"`{src(v)[:60]}`: the moment standing in for the derivative at 0 is not of the identity power's order"))
+                    elif meth == "cf":
+                        good = len(units) == 1 and isinstance(units[0].left, ast.Name) and units[0].left.id == "I" and isinstance(units[0].right, ast.Name) and units[0].right.id in idn
+                        neg = any(isinstance(u.left, ast.UnaryOp) and isinstance(u.left.op, ast.USub) for u in units) or not units
+                        if good:
+                            obs.append(Ob("M-transform-term", key, FA, v.lineno, qn, True, "the a-th derivative of the cf at 0 is replaced by I**a * E(X**a)"))
+                        elif neg:
+                            obs.append(Ob("M-transform-term", key, FA, v.lineno, qn, False,
+                                          f"`{src(v)[:60]}` stands in for the a-th derivative of the cf at 0, which is I**a * E(X**a) (not (-I)**a, not the bare moment)"))
+                        else:
+                            obs.append(inconclusive("M-transform-term", key, FA, v.lineno, qn, f"unit factor of `{src(v)[:50]}` not recognised"))
+                    else:
+                        if units:
+                            obs.append(Ob("M-transform-term", key, FA, v.lineno, qn, False, f"`{src(v)[:60]}`: the a-th derivative of the mgf at 0 is E(X**a) without a complex unit"))
+                        else:
+                            obs.append(Ob("M-transform-term", key, FA, v.lineno, qn, True, "the a-th derivative of the mgf at 0 is replaced by E(X**a)"))
+                    continue
                 obs.append(Ob("M-transform-term", key, FA, getattr(v, "lineno", f.node.lineno), qn, guarded,
                               f"shortcut `{nm} = {src(v)[:30]}` is taken only under a test on the identity power" if guarded else
                               f"`{nm} = {src(v)[:30]}` bypasses dist.{meth} without looking at the identity power: E(X^a f(X)) needs the a-th derivative even where the transform itself is trivial"))
